@@ -16,6 +16,7 @@ CFG = """CONSTANTS
  BVals <- %s
  TagAts <- %s
  Depths <- MCDepths
+ Deepen <- MCDeepen
  EmitAll = TRUE
 INIT Init
 NEXT Next
@@ -51,7 +52,7 @@ def run(ctx):
     strata = {}
     for s in scs:
         p = s["scn"]["prior"]
-        k = (("empty" if p["px"] == 0 else "shallow" if p["d1"] else "diverged" if p["local"] else "partial"), s["scn"]["depth"], s["scn"]["tags"])
+        k = (("empty" if p["px"] == 0 else "shallow%d" % p["d1"] if p["d1"] else "diverged" if p["local"] else "partial"), s["scn"]["depth"], s["scn"]["tags"])
         strata.setdefault(k, []).append(s)
     want = 2100 if ctx.thorough else 100
     picked = []
